@@ -16,7 +16,11 @@ _BASE = {0: None, 1: 1, 2: "p2", 3: (3, "t"), 4: [4], 5: {"k": 5}, 6: 6.5, 7: ""
 
 
 def payload_value(pid):
-    """Injective (under ==) map payload id -> Python value. Lists/dicts on purpose: unhashable payloads."""
+    """Injective (under ==) map payload id -> Python value. Lists/dicts on purpose: unhashable payloads.
+    ["fuse", child, cin, parent, pout, pins, pouts] <-> the tuple the harness' fusion callback builds."""
+    if isinstance(pid, (list, tuple)) and pid and pid[0] == "fuse":
+        _, c, cin, pp, pout, pins, pouts = pid
+        return ("fuse", payload_value(c), cin, payload_value(pp), pout, tuple(pins), tuple(pouts))
     if isinstance(pid, int):
         if pid in _BASE:
             v = _BASE[pid]
@@ -26,6 +30,8 @@ def payload_value(pid):
 
 
 def payload_id(v):
+    if isinstance(v, tuple) and len(v) == 7 and v[0] == "fuse":
+        return ["fuse", payload_id(v[1]), v[2], payload_id(v[3]), v[4], list(v[5]), list(v[6])]
     for k, b in _BASE.items():
         if type(v) is type(b) and v == b:
             return k
@@ -144,6 +150,13 @@ class Interner:
 INTERN = Interner()
 
 
+def hp(p):
+    """hashable form of a payload id"""
+    if isinstance(p, (list, tuple)):
+        return tuple(hp(x) for x in p)
+    return p
+
+
 def canon(ag, sort_sinks=False, rename=None):
     """Isomorphism-invariant form of the part of an AG reachable from its sinks: multiset of node keys
     (forward key = name, payload, outputs, inputs -> parents' keys; refined by the keys of the consumers,
@@ -163,7 +176,7 @@ def canon(ag, sort_sinks=False, rename=None):
     cons = {i: [] for i in reach}
     for i in sorted(reach):
         n = nodes[i]
-        fk[i] = INTERN(("F", rename(n["name"]), n["payload"], tuple(n["outputs"]),
+        fk[i] = INTERN(("F", rename(n["name"]), hp(n["payload"]), tuple(n["outputs"]),
                         tuple(sorted((k, o, fk[j]) for k, j, o in n["inputs"]))))
         for k, j, o in n["inputs"]:
             cons[j].append((i, k, o))
@@ -189,7 +202,7 @@ class Sym:
         t = self.memo.get(id(n))
         if t is None:
             ins = tuple(sorted((k, src.name, self.node(src.parent)) for k, src in n.inputs.items()))
-            t = self.memo[id(n)] = INTERN(("T", self.pid(n.payload), tuple(n.outputs), ins))
+            t = self.memo[id(n)] = INTERN(("T", hp(self.pid(n.payload)), tuple(n.outputs), ins))
             self.keep = getattr(self, "keep", [])
             self.keep.append(n)   # keep the object alive: id() must stay unique
         return t
@@ -202,7 +215,7 @@ def ag_terms(ag):
     """Same terms, computed on an AG (used for expected values of expansions)."""
     ts = []
     for n in ag["nodes"]:
-        ts.append(INTERN(("T", n["payload"], tuple(n["outputs"]), tuple(sorted((k, o, ts[j]) for k, j, o in n["inputs"])))))
+        ts.append(INTERN(("T", hp(n["payload"]), tuple(n["outputs"]), tuple(sorted((k, o, ts[j]) for k, j, o in n["inputs"])))))
     return ts
 
 
@@ -266,6 +279,44 @@ def gen_graph(rng, nmax, adversarial=True, unique_names=True, names=None, min_no
     sinks += extra
     if rng.random() < 0.05 and sinks:
         sinks.append(rng.choice(sinks))
+    rng.shuffle(sinks)
+    return normalise({"nodes": nodes, "sinks": sinks})
+
+
+def gen_chainy(rng, nmax, adversarial=True):
+    """DAG with many single-consumer edges (chains, combs): what fusion is about."""
+    n = rng.randint(2, max(2, nmax))
+    outsets = [["0"], ["0"], ["0"], ["o1", "o2"]] + ([["name", "0"]] if adversarial else [])
+    inames = INPUT_NAMES if adversarial else PLAIN_INPUT_NAMES
+    nodes = []
+    free = []      # (node, output) not yet consumed
+    used = set()
+    for i in range(n):
+        k = 0 if not free else rng.choice([0, 1, 1, 1, 2, 2, 3])
+        ins = []
+        for kn in rng.sample(inames, min(k, len(inames))):
+            if free and rng.random() < 0.85:
+                j, o = free.pop(rng.randrange(len(free)))
+            else:
+                cands = [(j, o) for j, x in enumerate(nodes) for o in x["outputs"]]
+                if not cands:
+                    break
+                j, o = rng.choice(cands)
+            ins.append([kn, j, o])
+        outs = list(rng.choice(outsets)) if i < n - 1 or rng.random() < 0.5 else []
+        nm = rng.choice(NAMES if adversarial else ["n", "p", "q"])
+        base, c = nm, 0
+        while nm in used:
+            nm = base + str(c)
+            c += 1
+        used.add(nm)
+        nodes.append({"name": nm, "outputs": outs, "payload": rng.randint(0, 4), "inputs": ins})
+        for o in outs:
+            if rng.random() < 0.8:
+                free.append((i, o))
+    consumed = {j for x in nodes for _, j, _ in x["inputs"]}
+    sinks = [i for i in range(n) if i not in consumed]
+    sinks += [i for i in range(n) if i in consumed and rng.random() < 0.08]
     rng.shuffle(sinks)
     return normalise({"nodes": nodes, "sinks": sinks})
 
